@@ -3,7 +3,7 @@ CONSTANTS
   Ds = {1, 2}
   Rs = {1, 2}
   Kinds = {"Measure", "DiagMeasure", "PDF:S", "PDF:SL", "PDF:SLD", "DiagPDF:S", "DiagPDF:SL", "DiagPDF:SLD"}
-  FKinds = {"Factor", "Rank1"}
+  FKinds = {"Factor", "Rank1", "Linear", "Const"}
   Mods = {"none", "multiply", "hadamard", "slice", "normalize", "get_density", "product"}
 INIT Init
 NEXT Next
